@@ -490,6 +490,54 @@ def _debug_only_blocks(ctx, b):
         none = [tb for v, tb in t["targets"] if v == 0] or [t["otherwise"]]
         if some:
             regions.append((bb, some[0], none[0] if none[0] != some[0] else None, False))
+    # `let before = if cfg!(debug_assertions) { Some(..) } else { None }; ..; if let Some(v) = before { .. }` (also split over two helpers that
+    # a view has inlined): an Option every `Some` of which is built under the debug arm — its Some arm exists only with debug assertions
+    base = list(regions)
+    if base:
+        dbg_blocks = set()
+        for sw, dbg, rel, is_da in base:
+            dbg_blocks |= _region_blocks(b, dbg, rel)
+        for bb in b.reachable():
+            t = b.term(bb)
+            if t["k"] != "switch" or any(r[0] == bb for r in regions):
+                continue
+            d = b.source_def(t["discr"])
+            if d is None or d[1] != "assign" or d[2]["rv"]["k"] != "discr" or d[2]["rv"]["place"]["proj"]:
+                continue
+            x = d[2]["rv"]["place"]["local"]
+            seen = set()
+            work = [x]
+            somes, ok = 0, True
+            while work and ok:
+                l = work.pop()
+                if l in seen:
+                    continue
+                seen.add(l)
+                if l == 0 or 1 <= l <= b.arg_count:
+                    ok = False
+                    break
+                ds = [y for y in b.defs().get(l, []) if not b.is_cleanup(y[0].bb)]
+                if not ds:
+                    ok = False
+                for y in ds:
+                    if y[1] != "assign":
+                        ok = False
+                        break
+                    rv = y[2]["rv"]
+                    if rv["k"] == "use" and rv["op"]["k"] in ("copy", "move") and not rv["op"]["place"]["proj"]:
+                        work.append(rv["op"]["place"]["local"])
+                    elif rv["k"] == "aggregate" and rv.get("adt") == "core::option::Option":
+                        if rv["variant"] == "Some":
+                            somes += 1
+                            if y[0].bb not in dbg_blocks:
+                                ok = False
+                    else:
+                        ok = False
+            if ok and somes:
+                some = [tb for v, tb in t["targets"] if v == 1]
+                none = [tb for v, tb in t["targets"] if v == 0] or [t["otherwise"]]
+                if some:
+                    regions.append((bb, some[0], none[0] if none[0] != some[0] else None, False))
     return regions
 
 
